@@ -22,7 +22,7 @@ def _kw():
 def correspondence(ctx):
     kw, styles = _kw()
     acc = (lambda p: p['style'] in styles) if styles else None
-    r = FL.correspondence(ctx, PID, kw, 60, 1500, accept=acc)
+    r = FL.correspondence(ctx, PID, kw, 60, 1500, accept=acc, extra_progs=designed())
     # the same filter as OctoPrint drives it: through the plugin object's hooks, with the @-command actions and scripts taken from the settings
     return PS.merge_into(r, ctx, PID.lower() + 'p', 10, 300, extra=[PS.atc_history(ctx.rng) for _ in range(ctx.n(15, 300))])
 
@@ -30,7 +30,7 @@ def correspondence(ctx):
 def oracle(ctx, budget=1, replay=None, hints=None):
     kw, styles = _kw()
     acc = (lambda p: p['style'] in styles) if styles else None
-    r = FL.oracle(ctx, PID, [O.check_C03], kw, 150 * budget, accept=acc, replay=replay)
+    r = FL.oracle(ctx, PID, [O.check_C03], kw, 150 * budget, accept=acc, replay=replay, extra_progs=designed())
     # through the plugin object, as OctoPrint drives it (exclusion switched off and on by the file, regions edited under the tool, unit and mode
     # switches inside the episode): two reference printers, one fed the file, one fed what the hooks let through
     import pluginoracles as PO
@@ -43,3 +43,18 @@ def oracle(ctx, budget=1, replay=None, hints=None):
     r['distribution']['plugin_histories'] = nh
     r['distribution']['plugin_resync_checks'] = PO.COUNTS.get('C03:resync', 0)
     return r
+
+
+def designed():
+    """relative positioning inside a region with there-and-back steps whose sum is a binary64 residue of either sign (0.3-0.1-0.2 < 0 < 0.1+0.2-0.3):
+    the re-positioning moves are the offsets back, so they carry numbers like -2.8e-17, which the printer must read as (practically) zero"""
+    from fractions import Fraction as F
+    import genprog
+    R = [('rect', 'a', F(10), F(10), F(20), F(20))]
+    out = []
+    for steps in (('0.3', '-0.1', '-0.2'), ('0.1', '0.2', '-0.3'), ('0.7', '-0.1', '-0.6'), ('-0.7', '0.1', '0.6')):
+        for ax in 'ZXY':
+            lines = ['G28', 'G1 X5 Y5 Z1 F3000', 'G1 X6 Y5 E1', 'G1 X15 Y15', 'G91'] + ['G1 %s%s' % (ax, d) for d in steps]
+            lines += ['G1 X20 Y20' if ax == 'Z' else ('G1 X20 Y0' if ax == 'Y' else 'G1 X0 Y20'), 'G90', 'G1 X40 Y40 E2']
+            out.append(dict(g90e=False, enter=None, exit=None, ext=dict(genprog.DEFAULT_EXT), regions=R, events=[('cmd', l) for l in lines], style='none', alen='1'))
+    return out
